@@ -122,12 +122,12 @@ _p("C19", probes_quick=["bbox_polygon_c19"],
        "left/top/width after the ltwh->universal->ltwh round trip (holds only up to rounding; bit-precise query >420 s)",
        "area / bounding-radius formulas and the polygon vertex arithmetic",
        "normalize_angle for |a| > 1e3 and its equivalence modulo a full turn as a number"])
-_p("C20", level="proof",
+_p("C20", level="proof", probes_quick=["tracker_constraints_c20"],
    level_text=PROOF_TEXT + "Decides that compatible() admits a pair exactly when scene, idle limit and validate(gap, dist_in_2r(last predicted boxes)) admit it (all inputs), that dist_in_2r is >= 0 and not NaN; the table lookup itself (smallest gap >= d, first limit wins, monotone) is a bounded stand-in for table lengths 0..=3 (thorough 4).",
-   level_note="NOT covered: tracker-level comparison of constrained and unconstrained runs (histories).",
-   technique="Kani recording-stub harness on compatible(); bounded Kani harnesses on add_constraints+validate",
+   level_note="Tracker-level clauses (a tracker whose constraints no pair violates behaves like one without; nothing is attached beyond the limit for its gap) are a BOUNDED stand-in (probe tracker_constraints_c20: Sort and VisualSort, IoU and Mahalanobis).",
+   technique="Kani recording-stub harness on compatible(); bounded Kani harnesses on add_constraints+validate; bounded tracker probe",
    assumptions=K,
-   not_covered=["a tracker with non-binding constraints behaves like one without (histories)"])
+   not_covered=["deductively: a tracker with non-binding constraints behaves like one without (histories) - bounded probe only"])
 
 BOUNDED_TEXT = ("Bounded stand-in only (never counted as proved): the property is the postcondition of a function that neither installed verifier can take "
                 "(reason in level_note); that postcondition is evaluated on the real code, compiled with the repository's own toolchain, over the stated finite input space. ")
